@@ -10,7 +10,8 @@ PROPERTY = "C11"
 RULE = (
     "A program (executable programs over native gates with macros, lets, aliases, subcircuits, parallel blocks; "
     "and general grammar-generated programs with anonymous gates) is parsed ONCE into a shared circuit object; a "
-    "drawn history of 1-7 library calls (expand_macros, fill_in_let(ov), fill_in_map, expand_subcircuits, "
+    "drawn history of 1-7 library calls (expand_macros, fill_in_let(ov), fill_in_map, expand_subcircuits with default "
+    "and with caller-named bounding gates, "
     "normalize_blocks_with_unitary_timing, get_used_qubit_indices, generate_jaqal_program, run_jaqal_circuit, "
     "parse_jaqal_output_list; repetitions allowed) is applied to that same object.  After EVERY call: a deep "
     "structural fingerprint of the shared circuit (everything reachable through __dict__, lists, dicts, tuples, "
@@ -22,8 +23,8 @@ RULE = (
 )
 ASSUMPTIONS = ["calls that legitimately raise JaqalError are fine (their outcome must still be reproducible on a fresh copy)"]
 
-OPS = ["mac", "let", "map", "sub", "norm", "used", "gen", "run", "out"]
-TRANSFORMS = {"mac", "let", "map", "sub", "norm"}
+OPS = ["mac", "let", "map", "sub", "subx", "norm", "used", "gen", "run", "out"]
+TRANSFORMS = {"mac", "let", "map", "sub", "subx", "norm"}
 
 
 def _call(op, circ, env, n_visits, nq, np_seed):
@@ -40,6 +41,9 @@ def _call(op, circ, env, n_visits, nq, np_seed):
         return guard(fill_in_map, circ, what=op)
     if op == "sub":
         return guard(expand_subcircuits, circ, what=op)
+    if op == "subx":
+        # caller-supplied bounding gates that are not in the circuit's native gate table
+        return guard(expand_subcircuits, circ, prepare_def="prep_zz", measure_def="meas_zz", what=op)
     if op == "norm":
         return guard(normalize_blocks_with_unitary_timing, circ, what=op)
     if op == "used":
@@ -60,7 +64,7 @@ def _call(op, circ, env, n_visits, nq, np_seed):
 def _summary(op, st_, r):
     if st_ == "err":
         return ("err", type(r).__name__, str(r))
-    if op in ("mac", "let", "map", "sub", "norm"):
+    if op in ("mac", "let", "map", "sub", "subx", "norm"):
         s2, t = guard(generate, r, what="generate")
         return ("circuit", r, t if s2 == "ok" else ("err", str(t)))
     if op == "used":
@@ -96,6 +100,11 @@ def check(case):
         raise Skip()
     n_visits = 0
     kw = {}
+    if mode == "native-partial":
+        # a native gate table WITHOUT prepare_all / measure_all (nothing can be executed, but
+        # every pass and analysis must still leave the table alone)
+        g = gates.make_gates(case["gate_seed"])
+        kw["inject_pulses"] = {k: v for k, v in g.items() if k not in ("prepare_all", "measure_all")}
     if mode == "native":
         kw["inject_pulses"] = gates.make_gates(case["gate_seed"])
         try:
@@ -141,7 +150,8 @@ def cases():
         hist = [ch.pick(OPS) for _ in range(ch.int(1, 7))]
         if ch.int(0, 2) > 0:
             c = gen_emul.make_emulable(ch, max_reg=4)
-            return {"prog": c["prog"], "env": c["env"], "gate_seed": c["gate_seed"], "mode": "native", "history": hist, "np_seed": ch.int(0, 10**6)}
+            partial = ch.int(0, 3) == 0 and not any(s[0] == "g" and s[1] in ("prepare_all", "measure_all") for s in __import__("vlib.model", fromlist=["all_stmts"]).all_stmts(c["prog"]))
+            return {"prog": c["prog"], "env": c["env"], "gate_seed": c["gate_seed"], "mode": "native-partial" if partial else "native", "history": hist, "np_seed": ch.int(0, 10**6)}
         prog, _b = gen.make_prog(ch, anon_cfg)
         env = gen.overrides(ch, prog) if ch.bool() else {}
         return {"prog": prog, "env": env, "gate_seed": 0, "mode": "anon", "history": hist, "np_seed": 1}
